@@ -118,7 +118,7 @@ func (exec *Executor) execAnyNode(
 	if node.First() == 0 {
 		defer exec.tempSetIgnoreStructuralErrors(true)()
 		res, err := exec.executeNextItem(ctx, node, next, value, found)
-		if err != nil || (res == statusOK && found == nil) {
+		if res.failed() || (res == statusOK && found == nil) {
 			return res, err
 		}
 	}
